@@ -88,7 +88,12 @@ c.param('config_file', KStr)
 c.param('skip_unknown', KVal, default=lambda ex: VObj(sym.val_of_bool(z3.BoolVal(False))))
 c.param('print_includes_and_imports', KBool, default=lambda ex: VBool(False))
 c.result = PCFI
-c.modifies = set(PARSE_MODIFIES)
+c.modifies = set(PARSE_MODIFIES) | {'_PARSE_CONTEXTS'}
+c.require('a_parse_context_exists', lambda x: x.old['_PARSE_CONTEXTS'].len >= 1)
+_ctx_restored = lambda x: x.new['_PARSE_CONTEXTS'].kind.eq(x.new['_PARSE_CONTEXTS'],
+                                                          x.old['_PARSE_CONTEXTS'])
+c.ensure('context_stack_restored', _ctx_restored)
+c.exc_ensure('context_stack_restored_after_failure', _ctx_restored)
 c.opaque_model = _opaque_model
 c.opaque_pure = True
 c.local_kinds = {'prefixes': KList(KStr)}
@@ -171,6 +176,7 @@ c.canary('MUSTFAIL_last_location_wins', lambda x: z3.BoolVal(False))
 def _outer_inv(x, k):
   r = x.old['_FILE_READERS'].len
   return z3.And(
+      _ctx_restored(x),
       z3.BoolVal(len(_parse_calls(x)) == 0 and len(_reader_calls(x)) == 0),
       KList(KStr).box(x.env.prefixes) == KList(KStr).box(_prefixes(x)),
       sym.forall([i_, j_], z3.Implies(z3.And(0 <= i_, i_ < k, 0 <= j_, j_ < r),
@@ -180,6 +186,7 @@ def _outer_inv(x, k):
 def _inner_inv(x, k):
   # k counts readers tried for the current location
   return z3.And(
+      _ctx_restored(x),
       z3.BoolVal(len(_parse_calls(x)) == 0 and len(_reader_calls(x)) == 0),
       sym.forall([j_], z3.Implies(z3.And(0 <= j_, j_ < k), z3.Not(readable(
           _rd(x, j_).items[1].e, x.env.config_file_with_prefix.e)))))
